@@ -90,7 +90,10 @@ fn generate(cli: &Cli) -> (Vec<Case>, bool) {
     let mut out = vec![];
     let bases = cli.scaled(cli.tier.pick(1, 3));
     let flip_stride = if cli.tier == Tier::Quick { 8 } else { 1 };
-    for base in 0..bases {
+    // every kind of client address (IPv4, IPv6, IPv6 embedding an IPv4 one) is seen in every tier; the
+    // complete enumeration of truncations and flips is done for the first `bases` only
+    for base in 0..bases.max(3) {
+        let enumerate = base < bases;
         let mut rng = Rng::stream(cli.seed, 1000 + base);
         let v4: std::net::SocketAddr = mk::random_addr(&mut rng).parse().expect("addr");
         let client_addr: std::net::SocketAddr = match (base % 4, v4.ip()) {
@@ -103,11 +106,11 @@ fn generate(cli: &Cli) -> (Vec<Case>, bool) {
         // length of a valid cookie in this context (to enumerate truncations and flips completely)
         let probe = make_case(&mut rng.clone(), &main, Class::Valid, false, true);
         let len = probe.sc.client.cookies[0].1.as_ref().map(|p| p.len()).unwrap_or(0);
-        for n in 0..len {
+        for n in 0..if enumerate { len } else { 0 } {
             out.push(make_case(&mut rng, &main, Class::Truncated(n), n % 61 == 0, true));
         }
         let offset = (cli.seed as usize + base as usize) % flip_stride;
-        for bit in (offset..len * 8).step_by(flip_stride) {
+        for bit in (offset..if enumerate { len * 8 } else { 0 }).step_by(flip_stride) {
             out.push(make_case(&mut rng, &main, Class::BitFlip(bit), bit % 509 == 0, true));
         }
         let singles = |rng: &mut Rng, ctx: &Ctx, out: &mut Vec<Case>| {
@@ -144,6 +147,10 @@ fn generate(cli: &Cli) -> (Vec<Case>, bool) {
                 }
             }
         };
+        if !enumerate {
+            singles(&mut rng, &main, &mut out);
+            continue;
+        }
         for expiry in [None, Some(60), Some(0)] {
             for (intent, secret) in [
                 (Intent::Transfer, main.server_secret.clone()),
@@ -251,16 +258,25 @@ fn bulk(cli: &Cli, cases: Vec<Case>) -> Vec<BulkRow> {
 /// control: the same without the wait and with the default expiry (must be accepted).
 fn issued_cookie_histories(cli: &Cli) -> Vec<(String, bool, Vec<(Finding, serde_json::Value)>, serde_json::Value)> {
     let n = cli.scaled(cli.tier.pick(2, 6));
-    let items: Vec<u64> = (0..2 * n).collect();
+    let items: Vec<u64> = (0..4 * n).collect();
     par_map(items, 8, |_, i| {
-        let aged = i % 2 == 0;
+        // 0: expiry 1 s, presented after 3 s; 1: default expiry, presented at once; 2 and 3: the
+        // router that checks is configured differently from the one that issued (a changed setting,
+        // two instances): only the checking router's own setting counts
+        let variant = i % 4;
+        let aged = variant == 0 || variant == 2;
         let mut rng = Rng::stream(cli.seed, 25_000 + i);
         let claimed = mk::ident(&mut rng, "claimed");
         let vouched = mk::ident(&mut rng, "vouched");
         let secret = rng.bytes_between(8, 32);
         let addr: std::net::SocketAddr = mk::random_addr(&mut rng).parse().expect("addr");
-        let expiry = if aged { Some(1) } else { None };
-        let build = |intent: Intent, cookie: Option<Vec<u8>>, port_shift: u16, seed: u64| {
+        let (issuing_expiry, checking_expiry) = match variant {
+            0 => (Some(1), Some(1)),
+            1 => (None, None),
+            2 => (None, Some(1)),
+            _ => (Some(1), None),
+        };
+        let build = |intent: Intent, cookie: Option<Vec<u8>>, port_shift: u16, seed: u64, expiry: Option<u64>| {
             let p = ScriptParams { intent, address: "hub.example.com", port: 25565, protocol: 771, claimed: &claimed, locale: "en_us", ping_payload: 0, client_info_delay: Duration::ZERO };
             let mut plan = default_plan(&p, mk::secret16(&mut Rng::new(seed)));
             plan.cookies = vec![(AUTH_KEY.to_string(), cookie)];
@@ -268,31 +284,32 @@ fn issued_cookie_histories(cli: &Cli) -> Vec<(String, bool, Vec<(Finding, serde_
             let cfg = ServerCfg { secret: Some(secret.clone()), expiry, client_addr: std::net::SocketAddr::new(addr.ip(), addr.port().wrapping_add(port_shift).max(1)), max_frame: None };
             default_scenario("issued-cookie-history", plan, adapters, cfg)
         };
-        let sc1 = build(Intent::Login, None, 0, i + 1);
+        let sc1 = build(Intent::Login, None, 0, i + 1, issuing_expiry);
         let r1 = run(&sc1);
         let issued = facts(&r1).store_cookies.iter().find(|c| c.0 == AUTH_KEY).map(|c| c.1.clone());
-        let class = format!("issued-cookie/{}", if aged { "presented-after-expiry" } else { "presented-at-once" });
+        let class = format!("issued-cookie/{}", ["presented-after-expiry", "presented-at-once", "presented-after-the-checking-routers-shorter-expiry", "presented-within-the-checking-routers-longer-expiry"][variant as usize]);
         let mut findings = vec![];
         let Some(cookie) = issued else {
             let f = Finding { signature: "issued-cookie-history/no-cookie-issued".into(), what: format!("fresh authentication with a secret did not issue a cookie ({})", r1.result.kind()), detail: json!({}) };
             let w = witness(&sc1, &r1, json!({}));
             return (class, aged, vec![(f, w)], json!({}));
         };
-        if aged {
+        if variant != 1 {
             std::thread::sleep(Duration::from_millis(3200));
         }
-        let mut sc2 = build(Intent::Transfer, Some(cookie), 77, i + 1000);
+        let mut sc2 = build(Intent::Transfer, Some(cookie), 77, i + 1000, checking_expiry);
         // the flag is all that is needed
         sc2.client.script = vec![sc2.client.script[0].clone(), sc2.client.script[1].clone(), Act::AwaitPkt { name: "EncryptionRequest", nth: 1 }, Act::Close, Act::AwaitClose];
         let r2 = run(&sc2);
         let flag = r2.client.enc_request.as_ref().map(|e| e.2);
         match (aged, flag) {
-            (true, Some(false)) => findings.push(Finding { signature: "flag-mismatch/transfer/secret/issued-cookie-after-expiry/should-authenticate".into(), what: "a cookie issued by the server 3 s ago was accepted although the configured expiry is 1 s".into(), detail: json!({}) }),
+            (true, Some(false)) => findings.push(Finding { signature: if variant == 0 { "flag-mismatch/transfer/secret/issued-cookie-after-expiry/should-authenticate".into() } else { "flag-mismatch/transfer/secret/issued-under-longer-expiry/should-authenticate".to_string() }, what: "a cookie issued by the server 3 s ago was accepted although the configured expiry (of the router that checks it) is 1 s".into(), detail: json!({}) }),
+            (false, Some(true)) if variant == 3 => findings.push(Finding { signature: "flag-mismatch/transfer/secret/issued-under-shorter-expiry/should-skip".into(), what: "a cookie issued 3 s ago by a router configured with expiry 1 s was not accepted by a router whose configured expiry is six hours".into(), detail: json!({}) }),
             (false, Some(true)) => findings.push(Finding { signature: "flag-mismatch/transfer/secret/issued-cookie-at-once/should-skip".into(), what: "a cookie issued by the server a moment ago was not accepted from the same IP".into(), detail: json!({}) }),
             (_, None) => findings.push(Finding { signature: format!("no-encryption-request/transfer/secret/issued-cookie/{}", r2.result.kind()), what: "connection ended before the Encryption Request".into(), detail: json!({}) }),
             _ => {}
         }
-        let sample = json!({"case": class, "should_authenticate_observed": flag, "waited_s": if aged { 3.2 } else { 0.0 }});
+        let sample = json!({"case": class, "should_authenticate_observed": flag, "waited_s": if variant != 1 { 3.2 } else { 0.0 }, "issuing_expiry_s": issuing_expiry, "checking_expiry_s": checking_expiry});
         let ws = findings.into_iter().map(|f| { let w = witness(&sc2, &r2, f.detail.clone()); (f, w) }).collect();
         (class, aged, ws, sample)
     })
